@@ -138,4 +138,10 @@ MUTANTS = [
     N("C04", "string decoder names the collected list differently and appends last", "trace_handlers/trace.py",
       "    for event in events:\n        lookup_events.append(event)\n        if event.func_qualifier & DgbFuncQual.DBG_FUNC_START.value:\n            debugid = event.values[0]\n            str_id = event.values[1]\n            vstr += event.data[16:]\n        else:\n            vstr += event.data\n",
       "    for event in events:\n        if event.func_qualifier & DgbFuncQual.DBG_FUNC_START.value:\n            debugid = event.values[0]\n            str_id = event.values[1]\n            vstr += event.data[16:]\n        else:\n            vstr += event.data\n        lookup_events.append(event)\n"),
+    F("C04", "parse_event_list declines long windows", TP,
+      "        trace_name = self.trace_codes[events[0].eventid]\n        if trace_name not in self.handlers:\n            return None",
+      "        trace_name = self.trace_codes[events[0].eventid]\n        if trace_name not in self.handlers or len(events) > 4096:\n            return None", "K9"),
+    N("C04", "parse_event_list keeps the code in a local", TP,
+      "        if events[0].eventid not in self.trace_codes:\n            return None\n        trace_name = self.trace_codes[events[0].eventid]",
+      "        code = events[0].eventid\n        if code not in self.trace_codes:\n            return None\n        trace_name = self.trace_codes[code]"),
 ]
